@@ -1191,7 +1191,7 @@ func main() {
 }
 
 func run(c *vf.Ctx) {
-	c.Rule("T: the system calls of the real JSONFileStorage.Stop() (helper process under strace) become the program of StateFile; M: TLC kills the writer between any two calls and inside every write (Recoverable, SaveCompletes) and checks 4 candidate designs (2 negative controls); R: every kill state is materialised on disk - kills inside a write at EVERY byte offset (thorough) or 96 sampled offsets plus the edges (quick) - and loaded by the real NewJSONFileStorage; the helper is also really killed by strace at each of its calls; E: the same recording, model checking, materialising and real killing for the shutdown in ENVIRONMENTS in which the temporary file cannot be created (its name taken by a directory or a dead symbolic link; the router's user owns the state file but not the directory) or cannot be renamed over the state file (sticky directory) - a save that fails as a whole and leaves the complete previous state is fine; round trip of generated states of 0..200 routers and mappings (unicode, empty, 4 kB strings, extreme and zoned times, nil sub-objects)")
+	c.Rule("T: the system calls of the real JSONFileStorage.Stop() (helper process under strace) become the program of StateFile; M: TLC kills the writer between any two calls and inside every write (Recoverable, SaveCompletes) and checks 4 candidate designs (2 negative controls); R: every kill state is materialised on disk - kills inside a write at EVERY byte offset (thorough) or 96 sampled offsets plus the edges (quick) - and loaded by the real NewJSONFileStorage; the helper is also really killed by strace at each of its calls; E: the same recording, model checking, materialising and real killing for the shutdown in ENVIRONMENTS in which the temporary file cannot be created (its name taken by a directory or a dead symbolic link; the router's user owns the state file but not the directory) or cannot be renamed over the state file (sticky directory) - a save that fails as a whole and leaves the complete previous state is fine; round trip of generated states of 0..200 routers and mappings (unicode, empty, 4 kB strings, extreme and zoned times, nil sub-objects); R-consumers: one state file through 3..7 generations of the components mycoria.New hands the loaded storage to - state manager and DNS server constructed (and served) directly on the loaded storage as in the tun branch, whole relay-only routers with and without API listener / dashboard - under configurations that change between the generations (friends, resolve entries, services, universe; names that collide with stored mappings, reserved names), with user map / remap / unmap operations; after every clean shutdown every stored router and mapping must be reloaded unchanged")
 	c.Assume("process-kill semantics (completed calls visible, no reordering); power loss is not claimed", "strings are valid UTF-8 (encoding/json replaces invalid bytes)")
 	if _, err := exec.LookPath("strace"); err != nil {
 		c.Fatal("strace not available: %v", err)
@@ -1640,6 +1640,10 @@ func run(c *vf.Ctx) {
 		_ = os.Chmod(dir, 0o755)
 	}
 	onlyE := os.Getenv("VERIF_C18_ONLY") == "E" // (development aid: stage E alone; the run is then reported as broken)
+	if os.Getenv("VERIF_C18_ONLY") == "C" {     // (development aid: stage R-consumers alone; reported as broken)
+		consumerGenerations(c)
+		c.Fatal("VERIF_C18_ONLY=C: the other stages were not run")
+	}
 	for pi, p := range pairs {
 		if onlyE {
 			break
@@ -1730,6 +1734,9 @@ func run(c *vf.Ctx) {
 	}
 	c.Stage("R", map[string]any{"pairs": len(pairs), "roundtrips": rounds * len(sizes)})
 	instanceGenerations(c)
+	// ---- R-consumers: one state file through generations of everything that is handed the loaded storage at a start
+	// (state manager, DNS server, whole relay-only routers with and without dashboard) under changing configurations
+	consumerGenerations(c)
 	// ---- E: the shutdown in unusual environments (last: the stages above see the same random stream as before)
 	environments(c, rng, base, analyse)
 }
